@@ -351,6 +351,11 @@ func TestVerif_C07_DataSolo(t *testing.T) {
 						selSent += uint64(len(p))
 						selPS++
 					}
+					// payload accepted through the connection, whichever pair carried it
+					sumWrite += uint64(len(p))
+					if got := conn.BytesSent(); got != sumWrite {
+						st.Fail(rt, "C07/counters/conn-bytes-sent", "%s: BytesSent=%d, Σ payload accepted by Write and WriteToPair=%d", where, got, sumWrite)
+					}
 				} else if err == nil || len(out) != 0 {
 					st.Fail(rt, "C07/writetopair/unvalidated-pair-used", "%s: pair %d is %s but WriteToPair = %d,%v emitted %d", where, info.ID, info.State, n, err, len(out))
 				}
